@@ -439,7 +439,8 @@ func buildQuery(rng *rand.Rand, idx int) genQuery {
 	shapes := []string{"project", "where", "distinct", "groupby", "groupby-trigger", "join-inner", "join-left", "join-right", "join-outer", "join-star",
 		"tvf-range", "tvf-watermark", "tvf-tumble", "subquery-from", "with", "groupby-in-subquery", "outerjoin-in-subquery", "scalar-subquery", "casts", "lookup-join", "join-groupby", "explode",
 		"typesum", "typesum", "typesum-groupby", "typesum-subquery", "typesum-distinct", "typesum",
-		"join-retract-left", "join-retract-right", "join-retract-outer", "join-retract-groupby", "join-retract-left", "join-retract-right"}
+		"join-retract-left", "join-retract-right", "join-retract-outer", "join-retract-groupby", "join-retract-left", "join-retract-right",
+		"groupby-zero", "groupby-zero", "groupby-zero-trigger", "groupby-zero-subquery", "groupby-zero", "groupby-zero-trigger"}
 	shape := shapes[idx%len(shapes)]
 	g := &qgen{rng: rng, cols: map[string][]string{}}
 	depth := 1 + rng.Intn(3)
@@ -556,6 +557,8 @@ func buildQuery(rng *rand.Rand, idx int) genQuery {
 			parts[i] = fmt.Sprintf("%s AS c%d", sel[i], i)
 		}
 		return genQuery{shape: shape, sql: "SELECT " + strings.Join(parts, ", ") + " FROM m.t1 a"}
+	case "groupby-zero", "groupby-zero-trigger", "groupby-zero-subquery":
+		return genQuery{shape: shape, sql: buildZeroSumQuery(rng, shape)}
 	case "join-retract-left", "join-retract-right", "join-retract-outer", "join-retract-groupby":
 		return genQuery{shape: shape, sql: buildRetractJoinQuery(rng, shape), join: true}
 	case "typesum", "typesum-groupby", "typesum-subquery", "typesum-distinct":
@@ -642,6 +645,9 @@ func runQuery(c *core.Ctx, ctx context.Context, i int, only string) {
 	if strings.HasPrefix(q.shape, "typesum") {
 		db.Tables["t3"] = genTable(rng, t3Cols, 10)
 	}
+	if strings.HasPrefix(q.shape, "groupby-zero") {
+		db.Tables["t4"] = genZeroSumTable(rng, q.shape == "groupby-zero-trigger" && rng.Intn(2) == 0)
+	}
 	if strings.HasPrefix(q.shape, "join-retract") {
 		// inputs that retract: small tables, few distinct keys (a.i and b.id collide), valid changelogs
 		db.Tables["t1"] = genRetractingTable(rng, t1Cols, 6)
@@ -652,6 +658,9 @@ func runQuery(c *core.Ctx, ctx context.Context, i int, only string) {
 	optimize := rng.Intn(2) == 0
 	replay := map[string]interface{}{"id": id, "shape": q.shape, "sql": q.sql, "optimize": optimize,
 		"t1": nodeh.EventsString(db.Tables["t1"].Events), "t2": nodeh.EventsString(db.Tables["t2"].Events)}
+	if t4, ok := db.Tables["t4"]; ok {
+		replay["t4"] = nodeh.EventsString(t4.Events)
+	}
 	if t3, ok := db.Tables["t3"]; ok {
 		replay["t3"] = nodeh.EventsString(t3.Events)
 		fs := make([]string, len(t3.Fields))
